@@ -10,7 +10,7 @@ Proof.
 Qed.
 
 Section LoopR.
-  Variables (ko : bool) (B : nat) (P U : list key) (env : nat -> layout * rows).
+  Variables (ko : bool) (B : nat) (P U : list key) (retry : nat -> option retry_kind) (env : nat -> layout * rows).
   Variable E : key -> key -> list (key * value).
   Hypothesis HB : (1 <= B)%nat.
   Hypothesis Hsorted : forall i, ksorted (snd (env i)).
@@ -21,20 +21,26 @@ Section LoopR.
 
   Definition mur' (c : cursor) : nat := if eof c then 0%nat else S (mur P U c).
 
-  Lemma rev_loop : forall fuel i c,
-    reverse c = true -> (mur' c < fuel)%nat ->
-    exists out, scan_loop fuel B ko env i c = Done out /\
+  Lemma rev_loop : forall fuel i c R,
+    reverse c = true -> bounded_retry retry i R -> (mur' c + R < fuel)%nat ->
+    exists out, scan_loop fuel B ko retry env i c = Done out /\
                 map (canon ko) out = if eof c then [] else rev (E (next_start c) (next_end c)).
   Proof.
-    induction fuel as [|f IH]; intros i c Hrev Hmu; [lia|].
-    cbn [scan_loop]. unfold mur' in Hmu. destruct (eof c) eqn:Heof.
+    induction fuel as [|f IH]; intros i c R Hrev Hb Hmu; [lia|].
+    cbn [scan_loop]. destruct (eof c) eqn:Heof.
     - exists []. split; reflexivity.
-    - destruct (rev_step ko B P U HB (fst (env i)) (snd (env i)) c (Hsorted i) (Hnonempty i) Hrev Heof (Hlay i) (Hkeys i))
+    - destruct (retry i) as [k|] eqn:Er.
+      { destruct (bounded_retry_some _ _ _ _ Hb Er) as (R' & -> & Hb').
+        destruct (IH (S i) c R' Hrev Hb') as (out & H1 & H2); [lia|].
+        exists out. split; [exact H1|]. rewrite H2, Heof. reflexivity. }
+      pose proof (bounded_retry_none _ _ _ Hb Er) as Hb'.
+      unfold mur' in Hmu. rewrite Heof in Hmu.
+      destruct (rev_step ko B P U HB (fst (env i)) (snd (env i)) c (Hsorted i) (Hnonempty i) Hrev Heof (Hlay i) (Hkeys i))
         as (ps & c' & Hgd & Hrev' & Hlo' & Hcons & Hsplit & Hdec).
       rewrite Hgd, Hcons.
-      assert (Hmu' : (mur' c' < f)%nat).
+      assert (Hmu' : (mur' c' + R < f)%nat).
       { unfold mur'. destruct (eof c') eqn:E'; [lia|]. destruct (Hdec eq_refl). lia. }
-      destruct (IH (S i) c' Hrev' Hmu') as (out' & Hloop & Hout).
+      destruct (IH (S i) c' R Hrev' Hb' Hmu') as (out' & Hloop & Hout).
       exists (emit ko ps ++ out'). split; [apply prepend_done; exact Hloop|].
       assert (Hrevspec : forall a b, rev (E a b) = map (canon ko) (filter_map (emit_row ko) (rev (filter (key_in a b) (snd (env i)))))).
       { intros a b. rewrite <- (Hind i a b). unfold emit. rewrite filter_map_rev, map_rev. reflexivity. }
@@ -54,16 +60,16 @@ Qed.
 
 Theorem scan_reverse_complete :
   forall (T : truth) (ts : N) (lo hi : key) (B : nat) (ko : bool)
-         (lay : nat -> layout) (lk : nat -> list key) (P : list key),
-    tsorted T -> (forall e, In e T -> fst e <> []) -> (forall i, incl (lay i) P) ->
+         (retry : nat -> option retry_kind) (R : nat) (lay : nat -> layout) (lk : nat -> list key) (P : list key),
+    tsorted T -> (forall e, In e T -> fst e <> []) -> (forall i, incl (lay i) P) -> bounded_retry retry 0 R ->
     exists out,
-      scan (length P + length T + 2) B ko ts T lay lk lo hi true = Done out /\
+      scan (length P + length T + 2 + R) B ko ts T retry lay lk lo hi true = Done out /\
       map (canon ko) out = map (canon ko) (rev (expected ts lo hi T)).
 Proof.
-  intros T ts lo hi B ko lay lk P HT Hnn Hlay. unfold scan.
-  destruct (rev_loop ko (norm_batch B) P (map fst T) (scan_env ts T lay lk)
+  intros T ts lo hi B ko retry R lay lk P HT Hnn Hlay Hb. unfold scan.
+  destruct (rev_loop ko (norm_batch B) P (map fst T) retry (scan_env ts T lay lk)
               (fun a b => map (canon ko) (expected ts a b T)) (norm_batch_pos B))
-    with (fuel := (length P + length T + 2)%nat) (i := 0%nat) (c := init_cursor lo hi true) as (out & H1 & H2).
+    with (fuel := (length P + length T + 2 + R)%nat) (i := 0%nat) (c := init_cursor lo hi true) (R := R) as (out & H1 & H2).
   - intros i. cbn. apply rows_of_sorted. exact HT.
   - intros i e He. cbn in He. apply rows_of_keys in He. apply in_map_iff in He. destruct He as (a & Ha1 & Ha2).
     rewrite <- Ha1. apply Hnn. exact Ha2.
@@ -71,6 +77,7 @@ Proof.
   - intros i e. cbn. apply rows_of_keys.
   - intros i a b. cbn [scan_env snd]. unfold expected, key_in. apply (emit_rows_of ko ts T (lk i) (in_range a b)).
   - reflexivity.
+  - exact Hb.
   - unfold mur'. cbn [init_cursor eof]. pose proof (mur_bound P (map fst T) (init_cursor lo hi true)).
     rewrite map_length in H. lia.
   - exists out. split; [exact H1|]. cbn [init_cursor eof next_start next_end] in H2. rewrite H2. rewrite map_rev. reflexivity.
@@ -84,7 +91,7 @@ Definition w_truth : truth := map (fun k => (k, [(5, Put [118])])) w_keys8.
 Definition w_layout : layout := [[99]; [102]].
 
 Lemma reverse_unbounded_regression :
-  scan (length w_layout + length w_truth + 2) 256 false 10 w_truth (fun _ => w_layout) (fun _ => []) [] [] true
+  scan (length w_layout + length w_truth + 2) 256 false 10 w_truth (fun _ => None) (fun _ => w_layout) (fun _ => []) [] [] true
     = Done (rev (expected 10 [] [] w_truth))
   /\ length (expected 10 [] [] w_truth) = 8%nat.
 Proof. split; vm_compute; reflexivity. Qed.
